@@ -14,7 +14,7 @@ def verdict(j):
         if isinstance(v, dict) and v.get("exit") == 1:
             cls = next((l.strip() for l in v.get("lines", []) if l.strip().startswith("class:")), "")
             cls = cls.replace("class:", "").strip().split(" (")[0].replace("|", "/")
-            return k.split(":")[0], cls[:80]
+            return k.split(":")[0], cls[:60]
     return None, ""
 for d in sorted(os.listdir(os.path.join(V, "seeded"))):
     m = re.match(r"(C\d\d)-([a-z])$", d)
@@ -38,4 +38,4 @@ for d in sorted(os.listdir(os.path.join(V, "seeded"))):
     needs = meta.get("needs_to_manifest") or meta.get("needs") or ""
     if who: c = (f"missed at first → {who} after strengthening" if first_missed else who) + (f" (`{cls}`)" if cls else "")
     else: c = "**missed**"
-    print(f"| {d} | {first_sentence(summ, 170)} | {first_sentence(needs, 150)} | {c} |")
+    print(f"| {d} | {first_sentence(summ, 120)} | {first_sentence(needs, 100)} | {c} |")
